@@ -6,7 +6,7 @@ import (
 	"go/token"
 	"strings"
 
-	"golang.org/x/tools/go/ssa"
+	"trzszlint/xssa"
 )
 
 func init() {
